@@ -6,7 +6,9 @@ proof:           Diff/DiffEmpty.v -> Properties/C02.v (all well-formed values, b
                  every valid one for soundness)
 correspondence:  the full tree-view result (+ recorded-opcode paths) and the full text-view
                  result (verbose 1 and 2) of DeepDiff vs the model, on copies, single-edit
-                 neighbours and random pairs, x zip x threshold
+                 neighbours and random pairs, x zip x threshold; the memo-threaded model on
+                 ==-aliased set members; the numpy model (Diff/NpModel.v) and the extended-universe
+                 model with datetimes / Decimals as atoms (Diff/XuModel.v) on their own streams
 direct oracle:   DeepDiff(x, deepcopy(x), **cfg) is empty;  DeepDiff(a, b, **cfg) empty => a == b;
                  inputs unmodified; over view x verbose x threshold x zip x cache_size x max_passes
                  (the last two are inert in ordered mode: the result is compared with the
@@ -26,7 +28,7 @@ RULE = ("pairs: (a) (x, deepcopy(x)) for random nested values x (dict/list/tuple
         "neighbours: every EDIT_KIND of harness.values (13 kinds) applied at a random position, i.e. at every depth, several times per value, plus 3 near-miss "
         "edits per value (float +-0.5, int +-1, int<->float, bool<->int, str case/blank/newline, str<->bytes, list<->tuple, set<->frozenset, None<->False), "
         "(c) random independent pairs and all-atom list pairs related by insert/delete/replace/move/dup/rotate edits under 0-2 common levels, (d) a seeded sample (450 / 9000) of the ordered pairs of an exhaustive small universe (599 values), (e) values containing date/datetime/time/timedelta "
-        "and numpy int/float arrays (direct oracle only); configurations: view {text,tree} x verbose_level {1,2} x threshold_to_diff_deeper "
+        "and numpy int/float arrays (direct oracle; a second set of such pairs - harness/xucommon.py, harness/npcommon.py - goes to the direct oracle AND to the correspondence with the extended / numpy models); configurations: view {text,tree} x verbose_level {1,2} x threshold_to_diff_deeper "
         "{0,0.33,0.9,1,1.0} x zip_ordered_iterables x cache_size {0,1,5000} x max_passes {0,1,10**7}: a random sample of 6 of the 360 per pair, the "
         "full grid on every 60th pair. Non-trivial = the two values are not Python-equal or the diff is non-empty; distinct by (t1, t2, cfg).")
 TRUSTED = ["difflib.SequenceMatcher opcodes are an oracle: copy clause proved for every oracle that tiles the lists with balanced 'equal' blocks, soundness "
@@ -35,8 +37,11 @@ TRUSTED = ["difflib.SequenceMatcher opcodes are an oracle: copy clause proved fo
            "DeepHash of set members: an abstract item hash in the main theorems (injective where the guard says); in the correspondence the DeepHash scalar model "
            "(hash_atom hexhash) and, for pairs whose sets hold ==-aliased numbers, the memo-threaded model Diff/DiffMemo.v run_diff_m (DeepDiff's run-wide ==-keyed table, "
            "filled in the implementation's order; cross-checked on 10% of the alias-free pairs too); equality patterns of SHA-256 and of the hex hasher are assumed to coincide",
-           "datetimes and numeric arrays are outside the model: direct oracle only (numpy is installed in /venv); Python == / numpy.array_equal + equal shape is the oracle; "
-           "failing cases carry a pickle of the inputs so that tzinfo and memory layout survive the replay",
+           "datetimes / dates / times / timedeltas / Decimals and numeric arrays have their own models (Diff/Xu*.v over an extended atom universe, Diff/Np*.v) with their own "
+           "correspondence streams (harness/xucommon.py c02xu, harness/npcommon.py c02np); str() / repr() of the exotic objects are oracles of the text view (finite tables); "
+           "named time zones, NaN / Infinity Decimals, 0-d / object arrays, arrays nested in containers and dict keys whose repr DeepDiff cannot parse back (time, timedelta, aware datetime) "
+           "are covered by the direct oracle only; Python == / numpy.array_equal + equal shape is the oracle there; failing cases carry a pickle of the inputs so that tzinfo, "
+           "memory layout and shared containers survive the replay",
            "values are tree-shaped (fresh containers), floats are half-integers, no bytes dict keys (finding F5)",
            "cache_size / max_passes are not in the model (ordered mode never consults them): inertness is checked on the implementation"]
 ASSUMPTIONS = ["threshold_to_diff_deeper <= 1", "dict/set inputs satisfy Python's representation invariant (keys / members pairwise !=)",
@@ -845,6 +850,15 @@ def run(ctx):
         ctx.count("gen:numpy_model:" + kind.split(":")[0])
         oracle_pair(ctx, a, b, is_copy, full_grid=False, stats_key="verdict_numpy_model", model_ok=False)
     NP.stream_c02(ctx, np_pairs)
+    # datetimes / dates / times / timedeltas / Decimals INSIDE a model (Diff/XuModel.v over the extended universe
+    # Diff/XuValue.v): the same pairs go to the direct oracle and to the correspondence (tree view incl. the normalised
+    # datetimes DeepDiff reports, text view, Python == vs py_eq, DeepHash's pre-hash texts)
+    from harness import xucommon as XU
+    xu_pairs = XU.gen_pairs(ctx.rng, 110 if ctx.thorough else 12)
+    for (a, b, kind, is_copy) in xu_pairs:
+        ctx.count("gen:xu_model:" + ":".join(kind.split("@")[0].split(":")[:2]))
+        oracle_pair(ctx, a, b, is_copy, full_grid=False, stats_key="verdict_xu_model", model_ok=False)
+    XU.stream_c02(ctx, xu_pairs)
     bytes_key_probe(ctx)
     replay_witnesses(ctx)
     for c in cases[:3]:
